@@ -59,6 +59,7 @@ type Obligation struct {
 	NAssume int
 	Note    string
 	Expect  string // "unsat" normally; "sat" for cover checks
+	Splits  []*Term
 	ex      *Exec
 }
 
@@ -109,6 +110,7 @@ type Exec struct {
 	nonil    int
 	lawMode  bool
 	curLoop  *loopData
+	splits   []*Term
 	calls    []*callRec
 	callSeq  int
 	usedContracts map[string]bool
@@ -174,7 +176,8 @@ func (x *Exec) oblige(kind, site string, tags []string, pos token.Pos, st *State
 	base := prefix + site
 	x.counters[base]++
 	name := fmt.Sprintf("%s/%s#%d", x.TopKey, base, x.counters[base])
-	o := &Obligation{Name: name, Kind: kind, Func: x.TopKey, Tags: tags, Guard: st.G, Goal: goal, NAssume: len(x.Assumes), Note: note, Expect: "unsat", ex: x}
+	o := &Obligation{Name: name, Kind: kind, Func: x.TopKey, Tags: tags, Guard: st.G, Goal: goal, NAssume: len(x.Assumes), Note: note, Expect: "unsat", ex: x,
+		Splits: append([]*Term{}, x.splits...)}
 	if pos.IsValid() {
 		o.Pos = x.W.Fset.Position(pos)
 	}
@@ -552,15 +555,60 @@ type retInfo struct {
 	pos token.Pos
 }
 
+func conjuncts(t *Term) []*Term {
+	if t.Op == "and" {
+		return t.Args
+	}
+	if t.IsTrue() {
+		return nil
+	}
+	return []*Term{t}
+}
+
+// stripCommon splits guards g_i into common /\ rest_i.
+func stripCommon(gs []*Term) (*Term, []*Term) {
+	if len(gs) == 1 {
+		return gs[0], []*Term{True()}
+	}
+	cnt := map[int]int{}
+	for _, g := range gs {
+		for _, c := range conjuncts(g) {
+			cnt[c.id]++
+		}
+	}
+	var common []*Term
+	seen := map[int]bool{}
+	rest := make([]*Term, len(gs))
+	for i, g := range gs {
+		var r []*Term
+		for _, c := range conjuncts(g) {
+			if cnt[c.id] == len(gs) {
+				if !seen[c.id] {
+					seen[c.id] = true
+					common = append(common, c)
+				}
+			} else {
+				r = append(r, c)
+			}
+		}
+		rest[i] = And(r...)
+	}
+	return And(common...), rest
+}
+
 func (x *Exec) mergeStates(ins []predState) *State {
 	if len(ins) == 1 {
 		return ins[0].st
 	}
+	gs := make([]*Term, len(ins))
+	for i, p := range ins {
+		gs[i] = p.st.G
+	}
+	common, rel := stripCommon(gs)
 	out := ins[len(ins)-1].st.clone()
-	gs := []*Term{out.G}
 	for i := len(ins) - 2; i >= 0; i-- {
 		s := ins[i].st
-		gs = append(gs, s.G)
+		cond := rel[i]
 		// locals
 		for id, cells := range s.Loc {
 			oc, ok := out.Loc[id]
@@ -584,26 +632,26 @@ func (x *Exec) mergeStates(ins []predState) *State {
 			}
 			nc := make([]*Term, len(oc))
 			for k := range oc {
-				nc[k] = Ite(s.G, cells[k], oc[k])
+				nc[k] = Ite(cond, cells[k], oc[k])
 			}
 			out.Loc[id] = nc
 		}
 		for srt, h := range s.Heap {
 			oh := x.heapOf(out, srt)
 			if oh != h {
-				out.Heap[srt] = Ite(s.G, h, oh)
+				out.Heap[srt] = Ite(cond, h, oh)
 			}
 		}
 		for srt, oh := range out.Heap {
 			if _, ok := s.Heap[srt]; !ok {
 				bh := x.baseHeap[srt]
 				if oh != bh {
-					out.Heap[srt] = Ite(s.G, bh, oh)
+					out.Heap[srt] = Ite(cond, bh, oh)
 				}
 			}
 		}
 	}
-	out.G = Or(gs...)
+	out.G = And(common, Or(rel...))
 	return out
 }
 
@@ -652,7 +700,13 @@ func (x *Exec) runBody(fr *Frame, entry *State) []retInfo {
 			case *ssa.Phi:
 				var v Val
 				first := true
-				for _, ps := range in {
+				pgs := make([]*Term, len(in))
+				for k, ps := range in {
+					pgs[k] = ps.st.G
+				}
+				_, prel := stripCommon(pgs)
+				for k := len(in) - 1; k >= 0; k-- {
+					ps := in[k]
 					for ei, p := range b.Preds {
 						if p == ps.pred {
 							ev := x.value(fr, st, ii.Edges[ei])
@@ -660,7 +714,7 @@ func (x *Exec) runBody(fr *Frame, entry *State) []retInfo {
 								v = ev
 								first = false
 							} else {
-								v = mergeVals(ps.st.G, ev, v)
+								v = mergeVals(prel[k], ev, v)
 							}
 							break
 						}
